@@ -20,7 +20,8 @@ RULE = (
     "levelize; sat: cnf, construct_solver, solve, model_count, approx_model_count; io: circuit_to_verilog "
     "(both styles), circuit_to_bench, to_file; utils.lint; Circuit.copy and every read-only method; the "
     "argument side of add_subcircuit / fill_blackbox -- on generated lint-clean circuits (with/without "
-    "blackboxes, constants, cycles) and generated arguments, including ones on which the callable raises. "
+    "blackboxes, constants, cycles; a third of them without the optional 'output' attribute on "
+    "non-output nodes, as the fast parser builds them) and generated arguments, including ones on which the callable raises. "
     "Oracle: deep snapshot (node attribute dicts, edge attribute dicts, name, registry keys -> BlackBox "
     "identity and pins) of every argument circuit is equal before and after the call, returned or raised; "
     "then a drawn edit script (add/remove node, add/remove edge, retype, flip output, in-place attribute "
@@ -162,6 +163,7 @@ def core(ctx):
     for fn in NAMES:
         for mk in (_plain, _flop):
             yield {"fn": fn, "spec": mk(), "spec2": _plain(), "pick": 3, "edits": FIXED_EDITS}
+            yield {"fn": fn, "spec": mk(), "spec2": _plain(), "pick": 5, "edits": FIXED_EDITS[:4], "raw_attrs": True}
 
 
 @st.composite
@@ -179,7 +181,8 @@ def _case(draw, ctx):
         spec = draw(S.circuit_spec(min_inputs=0, max_inputs=2, min_gates=2, max_gates=6, max_fanin=3, cyclic=True))
     spec2 = draw(S.circuit_spec(min_inputs=1, max_inputs=3, min_gates=1, max_gates=5, max_fanin=3))
     edits = draw(st.lists(st.tuples(st.integers(0, 11), st.integers(0, 30)).map(list), min_size=1, max_size=8))
-    return {"fn": fn, "spec": spec, "spec2": spec2, "pick": draw(st.integers(0, 60)), "edits": edits}
+    return {"fn": fn, "spec": spec, "spec2": spec2, "pick": draw(st.integers(0, 60)), "edits": edits,
+            "raw_attrs": draw(st.integers(0, 2)) == 0}
 
 
 def strategy(ctx):
@@ -260,6 +263,13 @@ def check(case, ctx):
     fn = case["fn"]
     c = specs.build(case["spec"])
     c2 = specs.build(case["spec2"])
+    if case.get("raw_attrs"):
+        # circuits read by the fast parser or built on a raw graph have no 'output' attribute on
+        # nodes that are not outputs; that is a legal circuit (is_output() treats it as False)
+        for cc in (c, c2):
+            for n in cc.graph.nodes:
+                if not cc.graph.nodes[n].get("output"):
+                    cc.graph.nodes[n].pop("output", None)
     tdir = os.path.join(ctx.tmp if ctx is not None else "/tmp", "c19")
     os.makedirs(tdir, exist_ok=True)
     snap, snap2 = refsim.snapshot(c), refsim.snapshot(c2)
